@@ -157,6 +157,16 @@ Proof.
   - apply tag_body_v23_inverts.
 Qed.
 Print Assumptions C14_frame_layers_v23.
+(* v2.2 / v2.3 through the version test of read_frames: a tag body unsynchronised as a whole is destuffed before
+   the frames are cut (v2.2 frames have no flags: from_data_v22 is the identity); v2.4 bodies are left to the frames *)
+Theorem C14_tag_layers_v22_v23 : forall major (f_unsynch : bool) tagbody, major < 4 ->
+  read_frames_head major f_unsynch (if f_unsynch then unsynch_encode tagbody else tagbody) = Ok tagbody
+  /\ from_data_v22 tagbody = Ok tagbody
+  /\ read_frames_head 4 f_unsynch tagbody = Ok tagbody.
+Proof.
+  intros major f_unsynch tagbody H. split; [now apply read_frames_head_inverts | split; reflexivity].
+Qed.
+Print Assumptions C14_tag_layers_v22_v23.
 (* the order is not a matter of taste: with inflate and destuffing swapped a concrete frame is not recovered
    (inflate = byte reversal), while the modelled order recovers it *)
 Theorem C14_frame_layers_swapped_refuted :
